@@ -25,6 +25,10 @@ STATES = [
     {"q": ["-1", "1/2", "0"], "p": ["1/2", "1", "-1"]},
     {"q": ["1", "1", "-1/2"], "p": ["-2", "1/2", "1/2"]},
 ]
+# states reached by ASSIGNING one variable of a state on which every method was already evaluated: (q of 1, p of 0)
+# after `state.pos = ...` and (q of 0, p of 1) after `state.mom = ...`, both starting from STATES[0]
+MIXED = {"pos": {"q": STATES[1]["q"], "p": STATES[0]["p"]}, "mom": {"q": STATES[0]["q"], "p": STATES[1]["p"]}}
+STATES_ALL = STATES + [MIXED["pos"], MIXED["mom"]]
 
 
 def cases(tier):
@@ -41,6 +45,10 @@ def cases(tier):
         out.append(dict(sys="GaussianConstrained", metric="dense", curved=si % 2 == 0, st=si))
         for fl in zoo.RIEMANNIAN_FLAVOURS:
             out.append(dict(sys="Riemannian", metric=fl, curved=True, st=si))
+    for si, var in ((len(STATES), "pos"), (len(STATES) + 1, "mom")):
+        for sysname, metric in (("Euclidean", "dense"), ("Gaussian", "diag"), ("Gaussian", "identity"), ("Constrained", "dense"),
+                                ("GaussianConstrained", "diag"), ("Riemannian", "diag"), ("Riemannian", "chol")):
+            out.append(dict(sys=sysname, metric=metric, curved=True, st=si, assigned=var))
     return out
 
 
@@ -51,7 +59,7 @@ def _rat_tla(x):
 
 
 def _case_tla(c):
-    st = STATES[c["st"]]
+    st = STATES_ALL[c["st"]]
     return ('[sys |-> %s, metric |-> %s, curved |-> %s, st |-> [q |-> <<%s>>, p |-> <<%s>>]]' % (
         tlc.tla_str(c["sys"]), tlc.tla_str(c["metric"]), tlc.to_tla(c["curved"]),
         ", ".join(_rat_tla(x) for x in st["q"]), ", ".join(_rat_tla(x) for x in st["p"])))
@@ -116,12 +124,28 @@ def check_against_real(recs):
             system = (zoo.make_system(kind, model, metric=metric) if kind != "Riemannian"
                       else zoo.make_system(kind, model, flavour=metric))
             cls = type(system).__name__
-            tag = f"{kind}[{metric}{'' if curved else ',linear'}]"
+            tag = f"{kind}[{metric}{'' if curved else ',linear'}]" + (f"(after state.{rec['_assigned']} = ...)" if rec.get("_assigned") else "")
+            assigned = rec.get("_assigned")
+            shared = None
+            if assigned:
+                # ONE state object: every method evaluated at STATES[0], then one variable assigned
+                from fractions import Fraction as _F
+                q0 = np.array([float(_F(x)) for x in STATES[0]["q"]])
+                p0 = np.array([float(_F(x)) for x in STATES[0]["p"]])
+                shared = ChainState(pos=q0, mom=p0, dir=1)
+                for meth in want:
+                    if hasattr(system, meth):
+                        getattr(system, meth)(shared)
+                if assigned == "pos":
+                    shared.pos = q.copy()
+                else:
+                    shared.mom = p.copy()
             for meth, w in want.items():
                 rp = {"engine": "sysgrad", "case": {k: rec[k] for k in ("sys", "metric", "curved", "q", "p")}, "with_aux": with_aux}
                 if not hasattr(system, meth):
                     continue
-                state = ChainState(pos=q.copy(), mom=p.copy(), dir=1)     # fresh state per method: no cache interplay
+                # fresh state per method (no cache interplay), or the shared state after the assignment
+                state = shared if shared is not None else ChainState(pos=q.copy(), mom=p.copy(), dir=1)
                 try:
                     got = getattr(system, meth)(state)
                 except Exception as e:  # noqa: BLE001
@@ -187,6 +211,11 @@ def softabs_numeric():
 def check_all(tier, name):
     cs = cases(tier)
     recs, stats = run_spec(cs, name)
+    from fractions import Fraction as _F
+    for r in recs:
+        for var, stt in MIXED.items():
+            if [_F(a, b) for a, b in r["q"]] == [_F(x) for x in stt["q"]] and [_F(a, b) for a, b in r["p"]] == [_F(x) for x in stt["p"]]:
+                r["_assigned"] = var
     viol, n = check_against_real(recs)
     v2, n2 = softabs_numeric()
     seen, out = set(), []
